@@ -146,6 +146,12 @@ namespace Track
   enum class DecodeState { LookingForAddress, LookingForRecord };
   Sector sec;
   int sec_size;
+  // A floppy disc controller only accepts a data address mark which
+  // follows closely after the ID field (30 byte times for FM in the
+  // WD177x).  We are more generous than that, but a mark which is
+  // further away than this belongs to some other sector.
+  constexpr size_t max_id_to_data_mark_bits = 64u * 16u;
+  size_t id_end = 0;
   enum DecodeState state = DecodeState::LookingForAddress;
   while (thisbit < bits_avail)
     {
@@ -230,6 +236,7 @@ namespace Track
 	    }
 	  // id[5] and id[6] are the CRC bytes, and these already got
 	  // included in our evaluation of addr_crc.
+	  id_end = thisbit;
 	  state = DecodeState::LookingForRecord;
 	}
       else if (state == DecodeState::LookingForRecord)
@@ -237,6 +244,20 @@ namespace Track
 	  std::optional<unsigned int> found = find_record_address_mark();
 	  if (!found)
 	    break;
+	  if (thisbit - id_end > max_id_to_data_mark_bits)
+	    {
+	      // The record belonging to the sector ID we read is
+	      // missing; this mark belongs to a later sector.  Resume
+	      // the search for sector IDs just after the ID we read.
+	      if (verbose)
+		{
+		  std::cerr << "No record follows the ID of sector "
+			    << sec.address << "\n";
+		}
+	      thisbit = id_end;
+	      state = DecodeState::LookingForAddress;
+	      continue;
+	    }
 	  const bool discard_record = *found == 0xF56A;
 	  if (verbose)
 	    {
